@@ -103,4 +103,4 @@ install(globals(), 'C12', view, oracle,
                    'changing hierarchy shapes is covered by C09/C10 checks of the hierarchy itself.',
         technique='Lean 4 invariant proof over the scheduler log + emit-sequence correspondence',
         extra_corpus=_extra(),
-        required=['emit_times_strict', 'row_is_flagged_state'])
+        required=['emit_times_strict', 'row_is_flagged_state', 'one_row_per_batch', 'initial_prefix', 'at_most_one_row_per_pass', 'row_contents'])
